@@ -9,8 +9,11 @@ package fam_dkg
 
 import (
 	"fmt"
+	"math/big"
 	"math/rand"
 	"strconv"
+
+	"github.com/decred/dcrd/dcrec/secp256k1/v4"
 
 	sdk "github.com/cosmos/cosmos-sdk/types"
 
@@ -85,6 +88,10 @@ type session struct {
 	outsider    world.Account
 	interesting bool
 	daemonPanic bool // the daemon's share handling panicked during the current step
+	// non-canonical share (script constant "nc" = [dealer, recipient]; 0 = none): the dealer picks its polynomial so that
+	// f(recipient) is a small number s and sends the recipient the 32 bytes of s + N - the SAME share modulo the group
+	// order, in an encoding that is not reduced.  For the model this dealer is honest.
+	ncDealer, ncRecipient int
 }
 
 // ---------------------------------------------------------------------------------------------
@@ -286,6 +293,21 @@ func (s *session) ensureR1(m *member) {
 	data, err := tss.GenerateRound1Info(tss.MemberID(m.id), uint64(s.t), s.dkgContext())
 	if err != nil {
 		panic(err)
+	}
+	if m.id == s.ncDealer && s.ncRecipient >= 1 && s.ncRecipient <= s.n && s.ncRecipient != m.id {
+		// a0 := small - sum_{k>=1} a_k j^k, so that f(j) = small; commitment and proof of a0 redone
+		rest := append(tss.Scalars{fromModN(smallScalar(0))}, data.Coefficients[1:]...)
+		a0 := smallScalar(1 + m.id)
+		a0.Add(evalPoly(rest, s.ncRecipient).Negate())
+		data.Coefficients[0] = fromModN(a0)
+		data.A0PrivKey = data.Coefficients[0]
+		data.A0PubKey = tss.Point(basePoint(a0))
+		data.CoefficientCommits[0] = data.A0PubKey
+		sig, err := tss.SignA0(tss.MemberID(m.id), s.dkgContext(), data.A0PubKey, data.A0PrivKey)
+		if err != nil {
+			panic(err)
+		}
+		data.A0Signature = sig
 	}
 	m.r1 = data
 }
@@ -513,6 +535,29 @@ func (s *session) stepR2(mid int, shape string, d []int) {
 				enc[slot] = e
 			}
 			logD[j-1] = dv
+		}
+		if j := s.ncRecipient; src.id == s.ncDealer && j >= 1 && j <= s.n && j != src.id && delta[j] == 0 {
+			// the share of j, congruent to the committed value, encoded as f(j) + N (fits 32 bytes because f(j) is small)
+			v := new(big.Int).SetBytes(fromModN(evalPoly(src.r1.Coefficients, j)))
+			v.Add(v, secp256k1.S256().N)
+			if v.BitLen() <= 256 {
+				keySym, err := tss.ComputeSecretSym(src.r1.OneTimePrivKey, pubs[j-1])
+				if err != nil {
+					panic(err)
+				}
+				e, err := tss.Encrypt(tss.Scalar(v.FillBytes(make([]byte, 32))), keySym, tss.DefaultNonce16Generator{})
+				if err != nil {
+					panic(err)
+				}
+				slot := j - 1
+				if j > src.id {
+					slot = j - 2
+				}
+				if slot < len(enc) {
+					enc[slot] = e
+					s.interesting = true
+				}
+			}
 		}
 		info := tsstypes.Round2Info{MemberID: tss.MemberID(src.id), EncryptedSecretShares: enc}
 		switch shape {
@@ -841,6 +886,9 @@ func (d *Driver) RunScript(sc tf.Script) {
 		panic(fmt.Sprint("bad script constants ", sc.C))
 	}
 	s := &session{d: d, w: w, r: w.Branch(), n: n, t: t}
+	if nc := tf.Ints(sc.C, "nc"); len(nc) == 2 {
+		s.ncDealer, s.ncRecipient = nc[0], nc[1]
+	}
 	s.outsider = world.NewAccount("dkg-outsider")
 	k := w.App.TSSKeeper
 
@@ -966,6 +1014,15 @@ func RandomScript(rng *rand.Rand) tf.Script {
 		period = 1 + rng.Intn(5) // expiry in the middle of some round
 	}
 	c := tf.M{"n": n, "t": t, "period": period}
+	if n >= 2 && rng.Intn(5) == 0 {
+		// one dealer sends one recipient its share in a non-reduced encoding (see session.ncDealer)
+		dl := 1 + rng.Intn(n)
+		rc := 1 + rng.Intn(n-1)
+		if rc >= dl {
+			rc++
+		}
+		c["nc"] = []int{dl, rc}
+	}
 	var steps []tf.M
 	add := func(m tf.M) { steps = append(steps, m) }
 	other := func(i int) int {
